@@ -15,14 +15,14 @@ Open Scope list_scope.
 (** Two jobs for the same (task hash, args hash, context) that did not opt out are never both
     handed to an executor. *)
 Theorem C06_one_submitter_per_key : forall c ops j1 j2 x1 x2,
-  pending_owner_safe (vr c) = true ->
+  pending_owner_safe (vr c) = true -> ctx_exact (vr c) = true ->
   getj (run c ops) j1 = Some x1 -> getj (run c ops) j2 = Some x2 ->
   jnocse x1 = false -> jnocse x2 = false ->
   jkey x1 = jkey x2 -> jctx x1 = jctx x2 ->
   1 <= jsubmits x1 -> 1 <= jsubmits x2 -> j1 = j2.
 Proof.
-  intros c ops j1 j2 x1 x2 Hs H1 H2 N1 N2 Ek Ec S1 S2.
-  apply (k_uniq _ (K_run c Hs ops) j1 j2 x1 x2 H1 H2 N1 N2 S1 S2). unfold kc. congruence.
+  intros c ops j1 j2 x1 x2 Hs Hx H1 H2 N1 N2 Ek Ec S1 S2.
+  apply (k_uniq _ _ (K_run c Hs ops) Hx j1 j2 x1 x2 H1 H2 N1 N2 S1 S2). unfold kc. congruence.
 Qed.
 
 (** ... and no job is handed over twice. *)
@@ -34,10 +34,10 @@ Proof. intros c ops j x H1 H2 H3. exact (Sle_run c H1 H2 ops H3 j x). Qed.
 (** A call that ran stays findable: its key is registered in _pending_jobs until it is recorded
     in the backend, so a later twin collapses into it or gets its recorded result. *)
 Theorem C06_submitter_stays_visible : forall c ops j x,
-  pending_owner_safe (vr c) = true ->
+  pending_owner_safe (vr c) = true -> ctx_exact (vr c) = true ->
   getj (run c ops) j = Some x -> jnocse x = false -> 1 <= jsubmits x ->
   In ((jkey x, jctx x), j) (pending (run c ops)) \/ exists o, In ((jkey x, jctx x), o) (recorded (run c ops)).
-Proof. intros c ops j x Hs. exact (k_cov _ (K_run c Hs ops) j x). Qed.
+Proof. intros c ops j x Hs Hx. exact (k_cov _ _ (K_run c Hs ops) Hx j x). Qed.
 
 (** A job only ever collapses into a job that records provenance (so the call node whose hash the
     duplicate adopts is really recorded). *)
@@ -53,7 +53,8 @@ Qed.
     job 0 runs; job 1, a twin under a parent without provenance, overwrites the entry, finishes and
     pops it; job 2, an ordinary twin, finds neither a pending nor a recorded twin and runs too. *)
 Definition c06_variant : variant :=
-  {| release_if_holds := true; recheck_on_skip := true; ctx_strict := false; pending_owner_safe := false |}.
+  {| release_if_holds := true; recheck_on_skip := true; ctx_strict := false; pending_owner_safe := false;
+     ctx_exact := true |}.
 Definition c06_cfg (v : variant) : config := {| limit_of := fun _ => 1%Z; dryrun := false; vr := v |}.
 Definition c06_witness : list op :=
   [ ONew 5 0 [] false true false; OPop 0 0 CMiss;
@@ -72,7 +73,31 @@ Example C06_witness_fixed :
   map jsubmits (jobs s) = [1; 1; 0] /\ map jphase (jobs s) = [PSubmitted; PSettled (Ok 7%Z); PCollapsed 0].
 Proof. vm_compute. split; reflexivity. Qed.
 
+(** The current code (ctx_exact = false): the context of a call is a tag on its CallNode, a CallNode is shared by all
+    calls with one call hash, and a context-free look-up skips tagged CallNodes.  Job 0 (no context) runs and is
+    recorded; job 1, the same call under a context, runs (a different call: C05) and, having the same result, tags
+    the same CallNode; job 2, the same call without a context again, finds no untagged CallNode and — in an execution
+    without the backend cache (cache=False), where nothing else can answer — runs a second time. *)
+Definition c06_ctx_variant : variant :=
+  {| release_if_holds := true; recheck_on_skip := true; ctx_strict := true; pending_owner_safe := true;
+     ctx_exact := false |}.
+Definition c06_ctx_witness : list op :=
+  [ ONew 5 0 [] false true false; OPop 0 0 CMiss; OComplete 0 true 0%Z; OPop 1 0 CMiss; OEval 0 (Ok 7%Z); OPop 3 0 CMiss;
+    ONew 5 2 [] false true false; OPop 0 1 CMiss; OComplete 1 true 0%Z; OPop 1 1 CMiss; OEval 1 (Ok 7%Z); OPop 3 1 CMiss;
+    ONew 5 0 [] false true false; OPop 0 2 CMiss ].
+
+Theorem C06_refuted_context_twin :
+  let s := run (c06_cfg c06_ctx_variant) c06_ctx_witness in
+  map jsubmits (jobs s) = [1; 1; 1] /\ map jctx (jobs s) = [0; 2; 0] /\ map jkey (jobs s) = [5; 5; 5] /\
+  map jnocse (jobs s) = [false; false; false].
+Proof. vm_compute. repeat split; reflexivity. Qed.
+
+Example C06_context_twin_exact :
+  let s := run (c06_cfg all_fixed) c06_ctx_witness in map jsubmits (jobs s) = [1; 1; 0].
+Proof. vm_compute. reflexivity. Qed.
+
 Print Assumptions C06_one_submitter_per_key.
+Print Assumptions C06_refuted_context_twin.
 Print Assumptions C06_job_submitted_at_most_once.
 Print Assumptions C06_submitter_stays_visible.
 Print Assumptions C06_twin_records_provenance.
